@@ -548,7 +548,7 @@ func TestC06(t *testing.T) {
 		if !r.Only(caseID) {
 			return
 		}
-		c06Window(r, caseID, rng(r, "window", i), []string{"crash-in-reorg", "crash-after-process"}[i%2])
+		c06Window(r, caseID, rng(r, "window", i), []string{"crash-in-reorg", "crash-after-process", "retrack-window"}[i%3])
 	})
 	nSlow := r.N(3, 16)
 	parallel(nSlow, workers, func(i int) {
@@ -667,5 +667,5 @@ func TestC06(t *testing.T) {
 		})
 	})
 	r.Set("concurrent_starts_that_converged", int(concStarted.Load()))
-	finish(t, r, r.N(25, 60), "free/*", "rewind/replace*", "rewind/none*", "fork/replaces-served*", "concurrent-start/*", "window/crash-in-reorg*", "window/crash-after-process*", "window/slow-store*")
+	finish(t, r, r.N(25, 60), "free/*", "rewind/replace*", "rewind/none*", "fork/replaces-served*", "concurrent-start/*", "window/crash-in-reorg*", "window/crash-after-process*", "window/slow-store*", "window/retrack-window*")
 }
